@@ -56,10 +56,23 @@ def run(program, rep, tier):
                 continue
             n_set += 1
             backing = program.trivial_getter_field(c, prop)
+            read_expr = f'self.{backing}' if backing else None
             if backing is None:
-                rep.inconclusive('C20.same-value', site, getter.node.name,
-                                 'getter is not `return self.<field>`')
-                continue
+                # a computing getter: `return <expr over one self field>`
+                rets = [n for n in ast.walk(getter.node)
+                        if isinstance(n, ast.Return) and n.value is not None]
+                flds = {n.attr for r in rets for n in ast.walk(r)
+                        if isinstance(n, ast.Attribute) and isinstance(
+                            n.value, ast.Name) and n.value.id == 'self'}
+                if len(rets) == 1 and len(flds) == 1:
+                    backing = flds.pop()
+                    read_expr = norm(rets[0].value)
+                else:
+                    rep.inconclusive('C20.same-value', site,
+                                     getter.node.name, 'getter is not a '
+                                     'single `return <expression over one '
+                                     'field>`')
+                    continue
             vp = setter.params()[1]
             w = Walker(program, _D(program))
             exits = w.run(setter, c)
@@ -103,9 +116,12 @@ def run(program, rep, tier):
                 elif len(args) != 2 or d.sym.node.keywords:
                     bad = bad or (d.node, 'the event does not carry exactly '
                                   'one value')
-                elif args[1] not in (stored_expr, f'self.{backing}'):
+                elif args[1] not in ({read_expr, f'self.{prop}'} | (
+                        {stored_expr} if read_expr == f'self.{backing}'
+                        else set())):
                     bad = bad or (d.node, f'the listener is told {args[1]} '
-                                  f'while the property stores {stored_expr}: '
+                                  f'while the property stores {stored_expr} '
+                                  f'and a read of it returns {read_expr}: '
                                   'the value carried by the event differs '
                                   'from what a read of the property returns')
             rep.check(bad is None, 'C20.same-value', site,
@@ -175,8 +191,15 @@ def run(program, rep, tier):
     from rules import c03
     n0 = len(rep.obs)
     c03.check_mapping(program, rep)
+    c03.check_fresh_sets(program, rep)
     for o in rep.obs[n0:]:
         o.rule = 'C20.cross-talk'
+    # each listener exactly once: registration is idempotent (C03.idempotent)
+    rep.borrow(c03.check_tables, program, rep,
+               keep=lambda o: o.rule == 'C03.idempotent',
+               rename=lambda r: 'C20.once',
+               why='a listener added twice to a transform is notified twice '
+               'per assignment')
     from rules import c13
     c13.instance_state(program, rep, 'C20.instances')
 
